@@ -1,41 +1,52 @@
-(* C14 - every opt-in object, wherever it sits, is serialised remotely exactly once and
-   restored from that state.  Model: Pickle/State.v (RemoteState of state.py as a stack
-   machine + the event order of unpickling). The full statement is FALSE of the current
-   code (known findings); what holds is proved for chains of any depth. *)
-From PW Require Import Pickle.State Pickle.StateProofs.
+(* C14 - every opt-in object, wherever it sits, is serialised remotely exactly once and restored from that state.
+   Model: Pickle/State.v - RemoteState of state.py as a stack machine, the event order of unpickling, and the pickler's
+   bookkeeping of which objects are announced by their holder (remote_reduce) - after the repairs
+   "remote_pickle restores any number of opt-in attributes of one object", "... classes without __setstate__",
+   "... patches no longer reach objects they are not addressed to". *)
+From PW Require Import Pickle.State Pickle.StateLoops Pickle.StateSteps Pickle.StateProofs.
 Open Scope Z_scope.
 
-(* PARTIAL (domain: every opt-in object has at most one direct opt-in child and otherwise
-   plain values; every class defines __setstate__; no patches): for chains of ANY depth the
-   load succeeds, every instance is restored exactly once - children before parents - with
-   exactly its own state, and the per-thread stack is back to its initial state.
-   Not covered by this theorem (exercised by the harness only): container-held and
-   plain-object-held instances, sharing, cycles, non-dict states. *)
-Theorem C14_partial_chains :
-  forall c, load (to_node c) [] None = inr (mkM [] (-1) false [] (expected c)).
-Proof. exact chain_loads. Qed.
+(* For EVERY graph - opt-in objects at top level, as attributes of one another in any number (siblings) and to any
+   depth, inside containers, inside objects of classes which do not opt in, shared references and cycles (Ref), classes
+   with or without __setstate__ - loading the event sequence in which the top-level object and every directly held
+   first occurrence are announced succeeds; every opt-in instance is restored exactly once, children before their
+   holders, with exactly the state the specification [spec] gives it; the per-thread stack ends empty (or holds only
+   the untouched patches of a top-level object which takes none). *)
+Theorem C14_every_graph_restores :
+  forall g p, exists s,
+    load_events (events_s g true) p = inr s /\ restored s = spec g (top_patches g p) /\ clean_end g p s.
+Proof. exact load_events_spec. Qed.
 
-(* REFUTED in general: two opt-in siblings under one opt-in parent *)
-Theorem C14_refuted_two_siblings :
-  exists g, load g [] None = inl EAssert.
-Proof. exists (Opt 0 true [(1, Opt 1 true []); (2, Opt 2 true [])]). vm_compute. reflexivity. Qed.
+(* ... and that event sequence is the one the pickler produces whenever its bookkeeping of announcements coincides
+   with the structure of the graph - a decidable condition on g, checked against the real pickler for every generated
+   graph by the harness (check_dump). *)
+Theorem C14_dumps_then_loads :
+  forall g p, announced_structurally g ->
+    exists s, load g p = inr s /\ restored s = spec g (top_patches g p) /\ clean_end g p s.
+Proof. exact load_spec. Qed.
 
-(* REFUTED: the same child stored under two attribute names of one parent *)
-Theorem C14_refuted_child_under_two_names :
-  exists g, load g [] None = inl EAssert.
-Proof. exists (Opt 0 true [(1, Opt 1 true []); (2, Ref 1)]). vm_compute. reflexivity. Qed.
-
-(* REFUTED: an opt-in class without __setstate__ *)
-Theorem C14_refuted_no_setstate :
-  exists g, load g [] None = inl EAttribute.
-Proof. exists (Opt 0 false [(1, Atom 1)]). vm_compute. reflexivity. Qed.
-
-Example C14_example_chain_depth_3 :
-  load (to_node (CLink 0 [(1, 5)] 2 (CLink 1 [] 1 (CEnd 2 [(3, 9)]) []) [(4, 7)])) [] None
-  = inr (mkM [] (-1) false [] [(2%nat, [(3, RAtom 9)]); (1%nat, [(1, RObj 2)]); (0%nat, [(1, RAtom 5); (2, RObj 1); (4, RAtom 7)])]).
+(* the hypothesis is satisfiable by non-trivial graphs: three siblings, a container-held pair between them, a child held
+   by a plain object, a shared child referred to twice more, a cycle back to the top, a class without __setstate__ *)
+Definition C14_sample : node :=
+  Opt 0 true [(1, Opt 1 true [(9, Ref 0)]); (2, Lst [Opt 2 false []; Opt 3 true [(1, Atom 4)]]); (3, Opt 4 true [(7, Opt 5 true [])]);
+              (4, PObj [(1, Opt 6 true [])]); (5, Ref 1); (6, Ref 1); (7, Opt 7 true [])].
+Example C14_example_announced_structurally : announced_structurally C14_sample.
 Proof. vm_compute. reflexivity. Qed.
+Example C14_example_sample_loads :
+  exists s, load C14_sample [] = inr s /\ map fst (restored s) = [1; 2; 3; 5; 4; 6; 7; 0]%nat /\ stack s = [] /\ iter s = -1.
+Proof. eexists. split; [vm_compute; reflexivity|]. repeat split. Qed.
 
-Print Assumptions C14_partial_chains.
-Print Assumptions C14_refuted_two_siblings.
-Print Assumptions C14_refuted_child_under_two_names.
-Print Assumptions C14_refuted_no_setstate.
+(* REFUTED outside that condition (known finding): a directly held child whose first occurrence lies inside an
+   EARLIER attribute of the same holder is announced by the holder but restored while the entry of that earlier
+   attribute is on top - it is restored with the patches addressed to the other object *)
+Theorem C14_refuted_first_occurrence_inside_an_earlier_attribute :
+  exists g p s, ~ announced_structurally g /\ load g p = inr s /\ restored s <> spec g (top_patches g p).
+Proof.
+  exists (Opt 0 true [(1, Opt 1 true [(7, Opt 2 true [(3, Atom 1)])]); (2, Ref 2)]),
+         [(1, PDict [(3, PVal 11)]); (2, PDict [(3, PVal 22)])].
+  eexists. split; [intros H; vm_compute in H; discriminate|]. split; [vm_compute; reflexivity|]. vm_compute. discriminate.
+Qed.
+
+Print Assumptions C14_every_graph_restores.
+Print Assumptions C14_dumps_then_loads.
+Print Assumptions C14_refuted_first_occurrence_inside_an_earlier_attribute.
